@@ -318,6 +318,7 @@ namespace mon
             std::snprintf( w, sizeof w, "%.*s failed locally under rewind_mode::required but left the cursor at offset %td (started at %td)%s", int( std::min< std::size_t >( f.name.size(), 100 ) ), f.name.data(), b.p - R.base, f.a.p - R.base, has_action ? " [action attached]" : " [no action attached]" );
             viol( "C02", "C02|fail-required-cursor-moved|" + t, w );
          }
+         if( ( f.flags & F_TRY ) && ( f.flags & F_REQUIRED ) && moved ) viol( "C05", "C05|try_catch-local-failure-cursor-not-restored|" + t, std::string( f.name ) + " returned false under rewind_mode::required (converted exception or failed rule) with the cursor moved" );
          if( f.vetoed && moved ) viol( "C04", "C04|veto-cursor-not-restored|" + t, "action of " + std::string( f.name ) + " returned false but the cursor was not restored to the start of the match" );
       }
       else if( result == 1 ) {
